@@ -5,6 +5,7 @@ go 1.26
 require (
 	github.com/FollowTheProcess/collections v0.10.0
 	github.com/FollowTheProcess/spok v0.0.0
+	golang.org/x/sys v0.26.0
 )
 
 require (
@@ -23,7 +24,6 @@ require (
 	go.uber.org/zap v1.27.0 // indirect
 	golang.org/x/exp v0.0.0-20241009180824-f66d83c29e7c // indirect
 	golang.org/x/sync v0.8.0 // indirect
-	golang.org/x/sys v0.26.0 // indirect
 	golang.org/x/term v0.25.0 // indirect
 	golang.org/x/text v0.19.0 // indirect
 	mvdan.cc/sh/v3 v3.10.0 // indirect
